@@ -177,7 +177,7 @@ def playback(scratch, h, env):
     out = dict(values=None, native_replay='not-run', detail='')
     try:
         p = subprocess.run(['cargo', 'kani', '-Z', 'stubbing', '-Z', 'concrete-playback', '--concrete-playback=inplace', '--harness', h],
-                           cwd=scratch, env=env, capture_output=True, text=True, timeout=900)
+                           cwd=scratch, env=env, capture_output=True, text=True, errors="replace", timeout=900)
         src = open(os.path.join(scratch, 'src/kani_harnesses.rs')).read() + open(os.path.join(scratch, 'src/kani_gen.rs')).read()
         m = re.search(r'fn (kani_concrete_playback_%s_\w+)\(\) \{(.*?)kani::concrete_playback_run' % re.escape(h), src, re.S)
         if not m:
@@ -187,7 +187,7 @@ def playback(scratch, h, env):
         flat = [b for v in out['values'] for b in v]
         out['bytes_hex'] = ''.join('%02x' % b for b in flat if 0 <= b < 256)
         q = subprocess.run(['cargo', 'kani', 'playback', '-Z', 'concrete-playback', '--', m.group(1)],
-                           cwd=scratch, env=env, capture_output=True, text=True, timeout=900)
+                           cwd=scratch, env=env, capture_output=True, text=True, errors="replace", timeout=900)
         o = q.stdout + q.stderr
         if re.search(r'test result: FAILED|panicked at', o):
             out['native_replay'] = 'reproduced: the generated test FAILS natively on the real code'
@@ -253,7 +253,7 @@ def run(harnesses=None, jobs=8, timeout=1500, keep=False, extra_args=(), skip_ne
         env = dict(os.environ, CARGO_NET_OFFLINE='true')
         env.pop('RUSTUP_TOOLCHAIN', None)
         try:
-            p = subprocess.run(cmd, cwd=scratch, env=env, capture_output=True, text=True, timeout=timeout)
+            p = subprocess.run(cmd, cwd=scratch, env=env, capture_output=True, text=True, errors="replace", timeout=timeout)
             outp = p.stdout + '\n' + p.stderr
         except subprocess.TimeoutExpired as e:
             outp = (e.stdout or b'').decode(errors='replace') + '\n' + (e.stderr or b'').decode(errors='replace')
